@@ -40,8 +40,33 @@ pub fn coq_nums<I: IntoIterator<Item = u64>>(it: I) -> String {
 }
 
 /// Order-preserving node name for a model rank.
+///
+/// Ranks below `ODD_NAME_BASE` are `n<rank>@host`. Ranks from `ODD_NAME_BASE` on encode a family of
+/// names that differ only in ASCII case, are prefixes of each other or carry a trailing dot:
+/// `rank = 8 * id + v` is `n<id>@<ODD_HOSTS[v]>` (ODD_HOSTS is sorted bytewise, ids have ten
+/// digits), so `str::cmp` agrees with the order of the ranks for ALL ranks, and distinct ranks are
+/// distinct names (distinct peers).
+pub const ODD_NAME_BASE: u64 = 9_000_000_000;
+pub const ODD_HOSTS: [&str; 8] = ["HOST", "HOSt", "Host", "hOST", "hos", "host", "host.", "hostx"];
 pub fn node_name(rank: u64) -> String {
-    format!("n{:010}@host", rank)
+    if rank < ODD_NAME_BASE {
+        format!("n{:010}@host", rank)
+    } else {
+        format!("n{:010}@{}", rank / 8, ODD_HOSTS[(rank % 8) as usize])
+    }
+}
+
+/// Inverse of [node_name] (u64::MAX if the name is not of that form).
+pub fn node_rank(name: &str) -> u64 {
+    let Some((n, host)) = name.split_once('@') else { return u64::MAX };
+    let Some(id) = n.strip_prefix('n').and_then(|x| x.parse::<u64>().ok()) else { return u64::MAX };
+    if host == "host" && id < ODD_NAME_BASE / 8 {
+        return id;
+    }
+    match ODD_HOSTS.iter().position(|h| *h == host) {
+        Some(v) if id >= ODD_NAME_BASE / 8 => id * 8 + v as u64,
+        _ => u64::MAX,
+    }
 }
 
 /// C17: the cookie with index `k`. 0..=2 are the short cookies "cookie<k>"; k >= 100 encodes a
